@@ -129,6 +129,10 @@ pub fn run_case(env: &Env, ctx: &mut Ctx, idx: u64) {
         }
         return;
     }
+    if rng.chance(1, 8) {
+        twin(env, ctx, &tables, &words, &mut rng);
+        return;
+    }
     let nmods = rng.range(1, 3);
     let p = gen_sv::program_v95(&mut rng, nmods);
     let mut lr = rng.fork();
@@ -248,6 +252,77 @@ pub fn run_case(env: &Env, ctx: &mut Ctx, idx: u64) {
     if ctx.want_sample() {
         ctx.sample(Obj::new().s("mutant", &clip(&m.text, 400)).s("word", &word).s("version_in_force", version).s("position", np.what).b("reserved_in_force", reserved_dir).done());
     }
+}
+
+/// The same word at a name position on both sides of a keyword-set boundary, identifier on the first side and
+/// reserved on the second, with nothing but keywords, punctuation and the directives in between (or one short
+/// identifier): whatever was learnt about the word under the first set says nothing under the second.
+fn twin(env: &Env, ctx: &mut Ctx, tables: &KwTables, words: &[String], rng: &mut Rng) {
+    // (first set, second set; None = default 1800-2017) with a word reserved in the second only
+    let (va, vb, word) = loop {
+        let va = VERSIONS[rng.below(VERSIONS.len())].0;
+        let vb: Option<&'static str> = if rng.chance(1, 2) { None } else { Some(VERSIONS[rng.below(VERSIONS.len())].0) };
+        let sa = tables.set_of(va);
+        let sb = tables.set_of(vb.unwrap_or("1800-2017"));
+        let cand: Vec<&String> = words.iter().filter(|w| !sa.contains(*w) && sb.contains(*w)).collect();
+        if !cand.is_empty() {
+            break (va, vb, (*rng.pick(&cand)).clone());
+        }
+    };
+    let item = |rng: &mut Rng, w: &str| -> String {
+        match rng.below(5) {
+            0 | 1 => format!("module {}; endmodule", w),
+            2 => format!("module {}(); endmodule", w),
+            3 => format!("module m; wire {}; endmodule", w),
+            _ => format!("module m; reg {}; endmodule", w),
+        }
+    };
+    let first_item = item(rng, &word);
+    let second_item = item(rng, &word);
+    let nl = |rng: &mut Rng| rng.pick(&["\n", " ", "\n\n", "\r\n"]).to_string();
+    let first_alone = format!("`begin_keywords \"{}\"{}{}{}`end_keywords\n", va, nl(rng), first_item, nl(rng));
+    let text = match (rng.below(3), vb) {
+        // nested: the outer set comes back when the inner region ends
+        (0, Some(vb)) => format!("`begin_keywords \"{}\"{}`begin_keywords \"{}\"{}{}{}`end_keywords{}{}{}`end_keywords\n", vb, nl(rng), va, nl(rng), first_item, nl(rng), nl(rng), second_item, nl(rng)),
+        // two regions one after the other
+        (_, Some(vb)) => format!("`begin_keywords \"{}\"{}{}{}`end_keywords{}`begin_keywords \"{}\"{}{}{}`end_keywords\n", va, nl(rng), first_item, nl(rng), nl(rng), vb, nl(rng), second_item, nl(rng)),
+        // back to the default set
+        (_, None) => format!("`begin_keywords \"{}\"{}{}{}`end_keywords{}{}\n", va, nl(rng), first_item, nl(rng), nl(rng), second_item),
+    };
+    ctx.count("twin_programs", 1);
+    match parse(&first_alone) {
+        Ok(Ok(_)) => {}
+        Ok(Err(_)) => {
+            // the word is not usable there even alone (K5 positions): nothing to learn from the pair
+            ctx.count("twin_first_side_rejected", 1);
+            return;
+        }
+        Err(_) => {
+            ctx.inconclusive("lib_panic");
+            return;
+        }
+    }
+    match parse(&text) {
+        Err(_) => ctx.inconclusive("lib_panic"),
+        Ok(Err(_)) => ctx.count("twin_second_side_rejected", 1),
+        Ok(Ok(_)) => {
+            let msg = format!(
+                "{:?} is an identifier under {} and reserved under {}; used at a name position on both sides of the boundary the source is accepted",
+                word,
+                va,
+                vb.unwrap_or("the default set (1800-2017)")
+            );
+            hooks::set_capacity(None);
+            let again = parse(&text);
+            hooks::set_capacity(Some(hooks::DEFAULT_CAPACITY));
+            let sig = match again {
+                Ok(Err(_)) => crate::memo_cfg::attribute(env, "K4").0,
+                _ => String::new(),
+            };
+            ctx.violation("reserved-word-accepted-after-boundary", &sig, &msg, Obj::new().s("input", &text).s("detail", &msg).done());
+        }
+    }
+    ctx.nontrivial(hash_strs(&[&text]));
 }
 
 /// all words x all eight specifiers x three name positions (enumerated completely in every run)
